@@ -854,3 +854,47 @@ func relIs(fact string, isA func(string) bool, op string, isB func(string) bool)
 	sw := map[string]string{"<": ">", ">": "<", "<=": ">=", ">=": "<=", "==": "==", "!=": "!="}
 	return o == op && isA(l) && isB(r) || o == sw[op] && isA(r) && isB(l)
 }
+
+// condOnValue: cond tests v itself — v (a bool), !v, v == nil, v != nil. okOnTrue tells whether the true edge is the
+// one on which v is true / nil.
+func condOnValue(cond ssa.Value, v ssa.Value) (okOnTrue, matched bool) {
+	if cond == v {
+		return true, true
+	}
+	switch x := cond.(type) {
+	case *ssa.UnOp:
+		if x.Op == token.NOT {
+			o, m := condOnValue(x.X, v)
+			return !o, m
+		}
+	case *ssa.BinOp:
+		if (x.Op == token.EQL || x.Op == token.NEQ) && (x.X == v && isNilConst(x.Y) || x.Y == v && isNilConst(x.X)) {
+			return x.Op == token.EQL, true
+		}
+	}
+	return false, false
+}
+
+// factsForValue: the edge-fact strings (as edgeFacts produces them) of the branch in fn that tests v: the fact of the
+// edge on which v is true / nil, and the fact of the other edge.
+func factsForValue(fn *ssa.Function, v ssa.Value) (okFact, badFact string) {
+	for _, b := range fn.Blocks {
+		iff, ok := b.Instrs[len(b.Instrs)-1].(*ssa.If)
+		if !ok {
+			continue
+		}
+		okOnTrue, m := condOnValue(iff.Cond, v)
+		if !m {
+			continue
+		}
+		tf, ff := condFacts(iff.Cond)
+		if len(tf) != 1 || len(ff) != 1 {
+			continue
+		}
+		if okOnTrue {
+			return tf[0], ff[0]
+		}
+		return ff[0], tf[0]
+	}
+	return "", ""
+}
